@@ -338,6 +338,7 @@ def run(ctx: Ctx) -> None:
     r03_3(ctx)
     r03_4(ctx, taint, closure, sinks, link_sinks, roots)
     r03_5(ctx, closure)
+    r03_6(ctx, roots)
 
 
 def r03_3(ctx: Ctx) -> None:
@@ -488,6 +489,42 @@ def r03_4(ctx: Ctx, taint: Taint, closure, sinks, link_sinks, roots) -> None:
         ctx.check(mentions_links or const_false, "R03.4", ex, c, "parallel extraction disabled for archives with link members",
                   "extraction may run folders in parallel although the archive contains link members: the check-then-create of one "
                   "worker races with link creation by another", construct=f"parallel={norm(par)}")
+
+
+def r03_6(ctx: Ctx, roots) -> None:
+    """shape of the link-resolving containment helper(s)."""
+    memo: Dict[str, bool] = {}
+    clo = ctx.res.closure(roots)
+    helpers = [f for f in clo.values() if f.module == "helpers" and any(
+        dotted(c.func) in ("os.path.realpath",) or (isinstance(c.func, ast.Attribute) and c.func.attr in ("resolve", "realpath")) for c in q.calls(f))]
+    ctx.floor("R03.6", len(helpers), 1, "link-resolving helper in helpers.py reachable from extraction")
+    for h in helpers:
+        tparam = h.params[0]
+        rp = [c for c in q.calls(h) if dotted(c.func) == "os.path.realpath" or (isinstance(c.func, ast.Attribute) and c.func.attr in ("resolve",))]
+        full = False
+        for c in rp:
+            arg = c.args[0] if c.args else (c.func.value if isinstance(c.func, ast.Attribute) else None)
+            if isinstance(arg, ast.Name) and arg.id == tparam:
+                full = True
+        ctx.check(full, "R03.6", h, rp[0] if rp else h.node, f"{h.name} resolves the whole target path (including a final link)",
+                  f"{h.name} resolves only a part of the target (e.g. its parent directory): when the last component already is a link created by an earlier member, "
+                  "open()/touch()/utime follow it to a place the check never looked at")
+        # comparison: commonpath == base / relative_to / is_relative_to ; never a plain string prefix
+        names = {attr_tail(c) for c in q.calls(h)}
+        pathwise = bool(names & {"commonpath", "relative_to", "is_relative_to", "samefile"})
+        stringy = bool(names & {"startswith", "commonprefix"})
+        ctx.check(pathwise and not stringy, "R03.6", h, h.node, f"{h.name} compares component-wise",
+                  f"{h.name} compares paths as strings (startswith/commonprefix): a sibling whose name merely starts with the destination's name counts as inside",
+                  construct=f"{h.name} comparison")
+        rets = [n for n in walk(h.node) if isinstance(n, ast.Return)]
+        for r in rets:
+            if isinstance(r.value, ast.Constant) and r.value.value is True:
+                ctx.fail("R03.6", h, r, f"{h.name} returns True unconditionally on some path")
+    # the lexical helper must not compare strings either
+    for name in ("is_relative_to",):
+        g = ctx.prog.func("helpers", name)
+        stringy = any(attr_tail(c) in ("startswith", "commonprefix") for c in q.calls(g))
+        ctx.check(not stringy, "R03.6", g, g.node, f"{name} compares component-wise", f"{name} compares paths as strings (startswith/commonprefix)", construct=f"{name} comparison")
 
 
 def r03_5(ctx: Ctx, closure) -> None:
